@@ -53,11 +53,18 @@ def coverage_from(out, stats, spec, rule, extra=None):
     return cov
 
 
-def run_history(modname, prop, tier, seed, depth, params=None, rule=None, budget_s=None):
+# safety caps: an exploration that does not stay within them (possible when the code under test is
+# broken in a way that blows the state space up) stops after the last complete level and says so
+BUDGET_S = {"quick": 150, "thorough": 1500}
+MAX_STATES = {"quick": 1500000, "thorough": 8000000}
+
+
+def run_history(modname, prop, tier, seed, depth, params=None, rule=None, budget_s=None, max_states=None):
     mod = importlib.import_module(modname)
     spec = mod.make_spec(tier, params or {})
     t0 = time.time()
-    out, stats = explore.bfs(modname, tier, params or {}, depth, budget_s=budget_s)
+    out, stats = explore.bfs(modname, tier, params or {}, depth,
+                             budget_s=budget_s or BUDGET_S[tier], max_states=max_states or MAX_STATES[tier])
     vs, nsig = violations_json(spec, out)
     cov = coverage_from(out, stats, spec, rule or (
         "explicit-state BFS over histories of real API calls; a state is distinct by its canonical key "
